@@ -16,6 +16,7 @@ func runRTOne(args []string) error {
 	seed := fs.Int64("seed", 1, "content seed")
 	reps := fs.Int("reps", 1, "number of content seeds to try")
 	dump := fs.Bool("dump", false, "print failing streams")
+	always := fs.Bool("stream", false, "print every stream")
 	fs.Parse(args)
 	var c rtCase
 	if err := json.Unmarshal([]byte(*cs), &c); err != nil {
@@ -36,6 +37,9 @@ func runRTOne(args []string) error {
 			fmt.Println("encode error:", err)
 			bad++
 			continue
+		}
+		if *always {
+			fmt.Printf("stream %x\n", stream)
 		}
 		d := rtDecode(c, stream)
 		if d.err != nil {
